@@ -9,6 +9,8 @@ git merge --no-commit --no-ff b-$N || true
 for f in lean/Main.lean lean/XknxVerif.lean MANIFEST.json known_findings.json; do
   git checkout --ours -- $f 2>/dev/null || git checkout HEAD -- $f 2>/dev/null || true
 done
+# evidence is rewritten by our own runs: on conflict keep ours
+for f in $(git diff --name-only --diff-filter=U | grep '^evidence/' || true); do git checkout --ours -- $f; done
 python3 tools/regen_roots.py
 python3 tools/mkmanifest.py
 git add -A
